@@ -57,6 +57,7 @@ ASSUMPTIONS = [
     "LimitingExportSizeWarning behaviour) in the oracle",
 ]
 
+ALLOW_SHORT_SCALAR = False    # set by run(): finding listed?
 NONSCALAR_TEMP = "c02_vec"
 SCALAR_TEMP = "c02_tsc"
 TDMS_FIXTURES = ["fmt-tdms_minimal_2016", "fmt-tdms_fl-image_2016",
@@ -68,6 +69,7 @@ RECTIFIED = {("experiment", "event count"), ("experiment", "run identifier"),
 
 F_NONSLICE = "C02-nonsliceable-source"
 F_UINT = "C02-uint-cast-negative"
+F_SCALAR = "C02-short-scalar-indexerror"
 # features the writer stores as unsigned integers (writer.FEATURES_UINT32/64)
 UINT_FEATS = {"fl1_max", "fl1_npeaks", "fl2_max", "fl2_npeaks", "fl3_max",
               "fl3_npeaks", "index", "ml_class", "nevents", "frame",
@@ -303,6 +305,19 @@ def build_source(src, workdir):
                 gen.write_spec(path, spec)
                 write_raw_logs_tables(path, truth["logs"], truth["tables"],
                                       empty_log)
+                if src.get("short"):
+                    # aborted acquisition: some features hold fewer events
+                    import h5py
+                    with h5py.File(path, "a") as h5:
+                        ev = h5["events"]
+                        for f, drop in src["short"].items():
+                            if f not in ev:
+                                continue
+                            dsets = ([ev[f][k] for k in ev[f]] if f == "trace"
+                                     else [ev[f]])
+                            for dset in dsets:
+                                dset.resize(max(1, dset.shape[0] - drop),
+                                            axis=0)
                 root = dclab.new_dataset(path)
         if src.get("temp"):
             v = np.array([[rng.randint(-9, 9) / 4 for _ in range(3)]
@@ -429,6 +444,12 @@ def run_export_case(case, workdir):
         idx = np.flatnonzero(mask) if filtered else np.arange(n)
         lmin = min(lens) if lens else n
         exp_idx = idx[idx < lmin]
+        unequal = bool(lens) and min(lens) != max(lens)
+
+        def exp_for(ln):
+            # with skip_checks the common-length limit is off: the selected
+            # events that exist in this array
+            return idx[idx < (ln if skip else lmin)]
         # --- run the implementation -----------------------------------------
         out = os.path.join(workdir, "out.rtdc")
         err = None
@@ -456,6 +477,10 @@ def run_export_case(case, workdir):
                     and any(kind_of(f) == 3 for f in nonslice_feats)
                     and (ds.format == "hierarchy" or no_filter_arr)):
                 res["finding"] = F_NONSLICE
+            elif (err[0] == 2 and "boolean index did not match" in str(err[1])
+                  and any(kind_of(f) == 0 and len(ds[f]) != n for f in uniq)
+                  and (filtered or (not skip and min(lens) != max(lens)))):
+                res["finding"] = F_SCALAR
             elif (err[0] == 2 and filtered and lens and lmin < n
                   and (skip or min(lens) == max(lens))
                   and len(idx) and idx.max() >= lmin):
@@ -485,10 +510,11 @@ def run_export_case(case, workdir):
                     else:
                         toks = [tok(r) for r in ev[f][:]]
                     flat += [names[f], trrank.get(key, 0), len(toks)] + toks
+                    e_idx = exp_for(len(src_tok[(f, key)]))
                     if k == 1:
-                        want = list(range(1, len(exp_idx) + 1))
+                        want = list(range(1, len(e_idx) + 1))
                     else:
-                        want = [src_tok[(f, key)][i] for i in exp_idx]
+                        want = [src_tok[(f, key)][i] for i in e_idx]
                     if toks != want:
                         fails.append(
                             "h5py: feature %s%s holds %d events, expected the "
@@ -530,13 +556,14 @@ def run_export_case(case, workdir):
         res["flat"] = flat
         exp_count = len(exp_idx) if uniq else (
             int(mask.sum()) if filtered else src_count)
-        if flat[1] != exp_count:
+        count_defined = not (skip and unequal)
+        if count_defined and flat[1] != exp_count:
             fails.append("event count attribute is %d, %d events were "
                          "selected" % (flat[1], exp_count))
         # dclab view of the exported file
         try:
             with dclab.new_dataset(out) as od:
-                if len(od) != exp_count:
+                if count_defined and len(od) != exp_count:
                     fails.append("len(exported) = %d, expected %d" % (
                         len(od), exp_count))
                 if len(exp_idx):
@@ -546,13 +573,22 @@ def run_export_case(case, workdir):
                             continue
                         for key, data in parts_of(ds, f):
                             got = od[f][key] if f == "trace" else od[f]
+                            e_idx = exp_for(len(data))
                             if kind_of(f) == 1:
                                 ok = list(np.asarray(got[:])) == list(
-                                    range(1, len(exp_idx) + 1))
-                            else:
-                                ok = len(got) == len(exp_idx) and all(
+                                    range(1, len(e_idx) + 1))
+                            elif f == "trace" or kind_of(f) == 0 or \
+                                    count_defined:
+                                ok = len(np.asarray(got[:])) == len(e_idx) \
+                                    if kind_of(f) == 0 else True
+                                ok = ok and all(
                                     gen.arr_equal(got[j], data[int(i)])
-                                    for j, i in enumerate(exp_idx))
+                                    for j, i in enumerate(e_idx))
+                                if count_defined and f != "contour":
+                                    ok = ok and len(got) == len(e_idx)
+                            else:
+                                ok = all(gen.arr_equal(got[j], data[int(i)])
+                                         for j, i in enumerate(e_idx))
                             if not ok:
                                 fails.append("dclab: feature %s%s differs "
                                              "from source[flatnonzero(mask)]"
@@ -1066,6 +1102,30 @@ def gen_export_case(rng, thorough=False):
             feats = [f for f in feats if f == "trace"] or ["trace"]
             feats += [f for f in ("userdef1", "userdef2") if f in avail][:1]
         case["skip_checks"] = rng.random() < 0.15
+        if t == "hdf5" and n >= 4 and rng.random() < 0.4:
+            # unequal feature lengths; all-pass / real filter / unfiltered
+            short = {}
+            for f in avail:
+                if f in ("image", "image_bg", "mask", "trace") and \
+                        rng.random() < 0.7:
+                    short[f] = rng.randint(1, min(6, n - 1))
+            scal = [f for f in avail if kind_of(f) == 0 and f != SCALAR_TEMP]
+            if ALLOW_SHORT_SCALAR and scal and rng.random() < 0.3:
+                short[rng.choice(scal)] = rng.randint(1, min(3, n - 1))
+            if short:
+                src["short"] = short
+                feats = list(set(feats) | set(rng.sample(
+                    sorted(short), rng.randint(1, len(short)))) | {"index"})
+                r2 = rng.random()
+                if r2 < 0.45:
+                    case["filtered"], case["mask"] = True, list(range(n))
+                elif r2 < 0.8:
+                    case["filtered"] = True
+                else:
+                    case["filtered"] = False
+                # without the length check only the fast path is defined
+                case["skip_checks"] = (r2 < 0.45 or r2 >= 0.8) and \
+                    rng.random() < 0.2
     # duplicates in the feature list
     if rng.random() < 0.4:
         feats = feats + [rng.choice(feats)]
@@ -1183,13 +1243,17 @@ def _work(args):
     return r
 
 
-def load_corpus():
+def load_corpus(listed=None):
     d = os.path.join(common.VERIF, "corpus", PROP)
     cases = []
     if os.path.isdir(d):
         for fn in sorted(os.listdir(d)):
             if fn.endswith(".json"):
-                cases.append(json.load(open(os.path.join(d, fn)))["case"])
+                e = json.load(open(os.path.join(d, fn)))
+                if e.get("requires_finding") and \
+                        e["requires_finding"] not in (listed or []):
+                    continue
+                cases.append(e["case"])
     return cases
 
 
@@ -1204,8 +1268,10 @@ def run_cases(cases, scratch):
 
 
 def run(run):
+    global ALLOW_SHORT_SCALAR
     rng = run.rng
-    cases = load_corpus()
+    ALLOW_SHORT_SCALAR = F_SCALAR in run.finding_ids()
+    cases = load_corpus(run.finding_ids())
     run.count("corpus", len(cases))
     n_exp, n_st, n_tsv, n_real = ((1500, 1500, 400, 40) if run.thorough
                                   else (150, 160, 50, 6))
@@ -1225,6 +1291,12 @@ def run(run):
             run.count("nsel=%s" % bucket(r["info"].get("nsel")))
             for f in set(c["features"]):
                 run.count("feat-kind:%d" % kind_of(f))
+            if c["src"].get("short"):
+                allp = c["filtered"] and len(c["mask"]) >= c["src"]["n"]
+                run.count("unequal:%s%s" % (
+                    "all-pass" if allp else
+                    ("filter" if c["filtered"] else "unfiltered"),
+                    ":skip" if c["skip_checks"] else ""))
             run.count("fmode:%s" % c.get("fmode", "list"))
             run.count("basins:%d" % bool(c.get("basins")))
         elif c["kind"] == "sff":
